@@ -64,28 +64,7 @@ mod verif_cmap_writer {
     #[kani::proof]
     #[kani::unwind(5)]
     fn format4_single_mapping_fffe() { single(0xFFFE) }
-    //@harness fns=CmapSubtable::create_format_4,Format4SegmentComputer::compute,Format4Segment::should_combine tier=thorough timeout=1800 note="two adjacent pairs U+0041,42 -> 10,20 and U+0051,52 -> 30,g (g symbolic): one or two glyph-array segments (the second idRangeOffset must skip the first one's ids)" bound="one enumerated code-point shape, last glyph id symbolic"
-    #[kani::proof]
-    #[kani::unwind(24)]
-    fn format4_two_pairs() {
-        // three glyph ids fixed so that the first pair needs the glyph id array; the last one symbolic: the second pair is
-        // then either a second glyph-array segment (its idRangeOffset must skip the first pair's ids) or a delta segment
-        let g3: u16 = kani::any();
-        kani::assume(g3 != 0 && g3 < 0x4000);
-        let g: [u16; 4] = [10, 20, 30, g3];
-        let cps: [u16; 4] = [0x41, 0x42, 0x51, 0x52];
-        let m = [(ch(cps[0]), GlyphId::new(g[0] as u32)), (ch(cps[1]), GlyphId::new(g[1] as u32)),
-                 (ch(cps[2]), GlyphId::new(g[2] as u32)), (ch(cps[3]), GlyphId::new(g[3] as u32))];
-        let sub = CmapSubtable::create_format_4(&m).unwrap();
-        let CmapSubtable::Format4(t) = sub else { panic!() };
-        assert!(well_formed(&t));
-        let k: usize = kani::any();
-        kani::assume(k < 4);
-        assert!(fmt4_lookup(&t, cps[k]) == g[k]);
-        let other: u16 = kani::any();
-        kani::assume(other != 0x41 && other != 0x42 && other != 0x51 && other != 0x52 && other != 0xFFFF);
-        assert!(fmt4_lookup(&t, other) == 0);
-        kani::cover!(t.glyph_id_array.len() == 4);
-        kani::cover!(t.glyph_id_array.len() == 2);
-    }
+    // NOTE: a harness with two adjacent pairs (two glyph-array segments, where the second idRangeOffset must skip the first
+    // segment's ids) exhausted CBMC's memory (16 GB) even with three of the four glyph ids fixed, and was removed:
+    // multi-segment glyph-id-array layouts of the writer are NOT covered.
 }
